@@ -21,7 +21,8 @@ the harness with a recording subclass of `tensor` / `sptensor`); `stored` stands
 everything that is specific to ONE representation (`subs`, `vals`, `nnz`, `order`,
 `to_tenmat`, `data`, the class itself). -/
 inductive Query (α : Type) where
-  | shape                                        -- `shape`, `ndims`
+  | shape                                        -- `shape`, `ndims`: metadata, read by every driver (cp_als, cp_apr, gcp_opt
+                                                 -- for the guess; hosvd / tucker_als also to validate the requested ranks)
   | normSq                                       -- `norm()` (squared)
   | mttkrp (U : List (Mat α)) (n : Nat)          -- `mttkrp(U, n)`
   | innerK (w : List α) (U : List (Mat α))       -- `innerprod(ktensor)`
@@ -189,6 +190,62 @@ def aprObserve {α : Type} [Mul α] [Div α] [One α] [Zero α] [LT α] [Decidab
   let w := K.factors.foldl (fun w A => List.zipWith (· * ·) w (colNorms A)) K.weights
   let F := K.factors.map fun A => normalizeFactor (colNorms A) A
   redistribute0 ⟨w, F⟩
+
+/-! ### CP-APR MU: the outer loop with the kappa fix-up on the LIVE model -/
+
+/-- `V = (Phi[n] > 0) & (M[n] < kappatol); M[n][V] += kappa`: entries of the live factor that are
+(numerically) zero although the multiplier says they want to grow are lifted by `kappa`. -/
+def muFixup {α : Type} [Add α] [Zero α] [LT α] [DecidableLT α] (kappa kappatol : α) (Phi A : Mat α) : Mat α :=
+  List.zipWith (fun prow arow =>
+    List.zipWith (fun p a => if 0 < p ∧ a < kappatol then a + kappa else a) prow arow) Phi A
+
+/-- `np.any(V)` — feeds the reported `nViolations` counter. -/
+def muViolates {α : Type} [Zero α] [LT α] [DecidableLT α] (kappatol : α) (Phi A : Mat α) : Bool :=
+  (List.zipWith (fun prow arow =>
+    (List.zipWith (fun p a => decide (0 < p ∧ a < kappatol)) prow arow).any id) Phi A).any id
+
+/-- the fix-up is skipped in the first outer iteration (`if iteration > 0`) -/
+def muFixupIf {α : Type} [Add α] [Zero α] [LT α] [DecidableLT α] (it : Nat) (kappa kappatol : α)
+    (Phi A : Mat α) : Mat α :=
+  if it > 0 then muFixup kappa kappatol Phi A else A
+
+/-- State of `tt_cp_apr_mu`'s outer loop: the live model, the multiplier matrices `Phi` of the last
+inner iteration of every mode (they survive into the next outer iteration: the fix-up reads them),
+the number of completed outer iterations, the per-mode KKT violations, and the two reported flags. -/
+structure MuState (α : Type) where
+  M : Ktensor α
+  Phi : List (Mat α)
+  it : Nat
+  kktModes : List α
+  nViol : Nat
+  conv : Bool
+
+/-- One mode of one outer iteration: the fix-up on the live model, then `inner` — everything that
+consults the data: `redistribute(n)`, Π, the multiplicative updates, `normalize(mode=n)` — which returns
+the new model, the last `Phi[n]`, the mode's KKT violation and whether an update was made. -/
+def muMode {α : Type} [Add α] [Zero α] [LT α] [DecidableLT α] (kappa kappatol : α)
+    (inner : Ktensor α → Nat → Ktensor α × Mat α × α × Bool) (s : MuState α) (n : Nat) : MuState α :=
+  let A := s.M.factors.getD n []
+  let P := s.Phi.getD n []
+  let M1 : Ktensor α := ⟨s.M.weights, s.M.factors.set n (muFixupIf s.it kappa kappatol P A)⟩
+  let viol := decide (s.it > 0) && muViolates kappatol P A
+  let r := inner M1 n
+  ⟨r.1, s.Phi.set n r.2.1, s.it, s.kktModes.set n r.2.2.1,
+   if viol then s.nViol + 1 else s.nViol, s.conv && !r.2.2.2⟩
+
+/-- one outer iteration: `isConverged = True`, the modes in order, the counter -/
+def muStep {α : Type} [Add α] [Zero α] [LT α] [DecidableLT α] (kappa kappatol : α)
+    (inner : Ktensor α → Nat → Ktensor α × Mat α × α × Bool) (s : MuState α) : MuState α :=
+  let s1 := (List.range s.M.factors.length).foldl (muMode kappa kappatol inner)
+    { s with nViol := 0, conv := true }
+  { s1 with it := s1.it + 1 }
+
+/-- `tt_cp_apr_mu` as a driver loop: the per-iteration status line only READS the state
+(`observe = id`); the stop test is the `isConverged` flag. -/
+def muLoop {α : Type} [Add α] [Zero α] [LT α] [DecidableLT α] (kappa kappatol : α)
+    (inner : Ktensor α → Nat → Ktensor α × Mat α × α × Bool) : Loop (MuState α) :=
+  ⟨muStep kappa kappatol inner, fun _ s => s.conv, id,
+   fun it s => s!"\tIter {it}: nViolations = {s.nViol}"⟩
 
 /-! ## 3. Random starts as functions of the draw sequence -/
 
